@@ -2086,8 +2086,21 @@ def r_omitted_params(ctx: Ctx, rule: str) -> None:
         over = ctx.call_arg(call_, c.callee.targets[0], "omit_params")
         rep.ob(rule, "add_class_commands keeps the default set of omitted parameters", over is None or names_of(c.func, over) == {"self"}, node=c)
     f = sess.methods.get("_exec_method_and_respond")
-    tests = [t for t in ctx.nodes(f, lambda n: n.op == "test") if re.fullmatch(r"\w+\.name=='(\w+)'|'(\w+)'==\w+\.name", ast.unparse(t.ast).replace(" ", "").replace('"', "'"))]
-    names = {m.group(1) or m.group(2) for t in tests for m in [re.fullmatch(r"\w+\.name=='(\w+)'|'(\w+)'==\w+\.name", ast.unparse(t.ast).replace(" ", "").replace('"', "'"))] if m}
+    def _name_test(t) -> Optional[str]:
+        """`<x>.name == <text>` (either way round; the text a literal or a module-level string constant) -> the text"""
+        e = t.ast
+        if not (isinstance(e, ast.Compare) and len(e.ops) == 1 and isinstance(e.ops[0], ast.Eq)):
+            return None
+        a, b = e.left, e.comparators[0]
+        for x, y in ((a, b), (b, a)):
+            if isinstance(x, ast.Attribute) and x.attr == "name":
+                c = V.const(t.func, y)
+                if c is not None and isinstance(c.value, str):
+                    return c.value
+        return None
+
+    tests = [t for t in ctx.nodes(f, lambda n: n.op == "test") if _name_test(t) is not None]
+    names = {_name_test(t) for t in tests}
     rep.ob(rule, "the session supplies the pool for the parameter named 'self' (the name the parser omits)", names == {"self"}, func=f,
            construct=tests[0] if tests else "(no test of the parameter name)", detail=str(sorted(names)))
 
@@ -2188,3 +2201,173 @@ def r_dispatch_kind(ctx: Ctx, rule: str) -> None:
             rep.ob(rule, f"{exec_name} runs only for a command of its kind", only_when(ctx, f, tests, c), node=c,
                    detail="" if tests else f"no test reading like {sorted(texts)[0]} guards this call")
     rep.floor(rule, "executor calls in _parse_command", n_sites, 2)
+
+
+def r_no_timeouts(ctx: Ctx, rule: str):
+    """NO-TIME-OUTS(control): a reply belongs to the line that was sent last only while each side waits for the other for as long as it
+    takes - a command whose method waits (until-closed, flush, gather-and-close) is answered when that wait is over.  A side that gives
+    up after some seconds leaves the reply in the stream: it is then read as the answer to the next command."""
+    rep = ctx.rep
+    rep.rule(rule, "NO-TIME-OUTS(control): WHO(asyncio.wait_for / asyncio.timeout / timeout_at / wait(timeout=...)) in the control package is empty; "
+                   "positive control: the stream reads of session and client are resolved")
+    funcs = [f for f in ctx.prog.every_function() if f.module.name.startswith("control")]
+    bad = []
+    reads = 0
+    for f in funcs:
+        sc = ctx.an.scope(f)
+        for x in sc._own_nodes():
+            if not isinstance(x, ast.Call):
+                continue
+            try:
+                cal = sc.callee(x)
+            except Exception:
+                continue
+            nm = (cal.name or "")
+            last = nm.rpartition(".")[2]
+            if cal.kind == "ext" and nm.startswith("asyncio") and (last in ("wait_for", "timeout", "timeout_at") or (last == "wait" and any(k.arg == "timeout" for k in x.keywords))):
+                bad.append((f, x, nm))
+            if cal.kind == "ext" and last in ("readline", "read", "readuntil", "readexactly") and "StreamReader" in nm:
+                reads += 1
+    for f, x, nm in bad:
+        rep.ob(rule, "neither side of the control connection gives up waiting for the other", False, func=f, construct=x,
+               detail=f"{nm}: when the time is up the reply is still to come - it will be read as the answer to the next line")
+    rep.ob(rule, "no time-out call in the control package", not bad, construct=f"control package: {len(funcs)} functions, time-out sites = {len(bad)}")
+    rep.floor(rule, "positive control: resolved stream reads in the control package", reads, 3)
+
+
+def r_blank_agreement(ctx: Ctx, rule: str):
+    """BLANK-AGREEMENT between the two ends of the line protocol: the session's listen loop reads an empty (blank) line as "the client
+    is gone" and ends; the bundled client therefore never sends one - `_get_command` hands back None or a non-empty command, and
+    `_interact` writes only what it got."""
+    rep = ctx.rep
+    rep.rule(rule, "BLANK-AGREEMENT: while the session ends on a blank line, every value ControlClient._get_command returns is None or provably "
+                   "non-empty (`x or None`, or a return reachable only through a truth test of the value), and _interact writes nothing for None")
+    cli = ctx.prog.cls("control.client.ControlClient")
+    if cli is None or "_get_command" not in cli.methods or "_interact" not in cli.methods:
+        raise AnalysisError("anchor: ControlClient._get_command / _interact missing")
+    _cp, sess = anchors(ctx)
+    lis = sess.methods.get("listen")
+    if lis is None:
+        raise AnalysisError("anchor: ControlSession.listen missing")
+    # premise: does the session end on a blank line?  (a falsy test of the line read whose true arm leaves the loop)
+    lg = ctx.an.cfg(lis)
+    ends_on_blank = False
+    for t in [n for n in lg.nodes if n.op == "test" and n.pred]:
+        e = t.ast
+        if isinstance(e, ast.UnaryOp) and isinstance(e.op, ast.Not) and isinstance(e.operand, ast.Name):
+            arm = [s for s, lab in t.succ if lab[0] == "T"]
+            if arm and not any(m.op == "await" and m.awaited is not None and "readline" in (m.awaited.name or "") for m in reach(arm, lambda a, b, lab: lab[0] in NORMAL_KINDS)):
+                ends_on_blank = True
+    rep.ob(rule, "premise read off the session: a blank line ends the listen loop", "info" if ends_on_blank else "info", func=lis,
+           construct=f"listen: ends on a blank line = {ends_on_blank}")
+    if not ends_on_blank:
+        return
+    f = cli.methods["_get_command"]
+    g = ctx.an.cfg(f)
+    rets = [n for n in g.nodes if n.op == "return" and n.pred]
+    rep.floor(rule, "returns of _get_command", len(ctx.distinct_sites(rets)), 2)
+    for r in ctx.distinct_sites(rets):
+        v = r.ast.value
+        if v is None or (isinstance(v, ast.Constant) and v.value is None):
+            continue
+        ok = False
+        why = ""
+        if isinstance(v, ast.BoolOp) and isinstance(v.op, ast.Or) and isinstance(v.values[-1], ast.Constant) and v.values[-1].value is None:
+            ok = True
+        elif isinstance(v, ast.Constant) and isinstance(v.value, str) and v.value.strip():
+            ok = True
+        elif isinstance(v, ast.IfExp) and isinstance(v.orelse, ast.Constant) and v.orelse.value is None and isinstance(v.test, ast.Name) \
+                and isinstance(v.body, ast.Name) and v.body.id == v.test.id:
+            ok = True  # `x if x else None`
+        elif isinstance(v, ast.IfExp) and isinstance(v.body, ast.Constant) and v.body.value is None and isinstance(v.test, ast.UnaryOp) and isinstance(v.test.op, ast.Not) \
+                and isinstance(v.test.operand, ast.Name) and isinstance(v.orelse, ast.Name) and v.orelse.id == v.test.operand.id:
+            ok = True  # `None if not x else x`
+        elif isinstance(v, ast.Name):
+            # reachable only through the truthy arm of a test of this very name?
+            def blocked(a: Node, b: Node, lab) -> bool:
+                if a.op == "test":
+                    e = a.ast
+                    if isinstance(e, ast.Name) and e.id == v.id and lab[0] == "T":
+                        return False
+                    if isinstance(e, ast.UnaryOp) and isinstance(e.op, ast.Not) and isinstance(e.operand, ast.Name) and e.operand.id == v.id and lab[0] == "F":
+                        return False
+                return True
+            copies = [x for x in rets if x.ast is r.ast]
+            # assignments to the name after the test would void it: require none between
+            ok = not any(c in reach([g.entry], blocked) for c in copies)
+            why = "" if ok else f"`{v.id}` may be the empty string here"
+        rep.ob(rule, "_get_command hands back None or a non-empty command (the client never sends a blank line)", ok, node=r,
+               detail=why or ("" if ok else "an empty line typed at the prompt would be sent; the session takes it for a disconnect and closes a client that is still there"))
+    fi = cli.methods["_interact"]
+    gi = ctx.an.cfg(fi)
+    writes = [n for n in gi.nodes if n.pred and n.op == "call" and isinstance(n.ast, ast.Call) and isinstance(n.ast.func, ast.Attribute) and n.ast.func.attr == "write"]
+    rep.floor(rule, "writes in _interact", len(ctx.distinct_sites(writes)), 1)
+    nonetests = [t for t in gi.nodes if t.op == "test" and t.pred and isinstance(t.ast, ast.Compare) and len(t.ast.ops) == 1 and isinstance(t.ast.ops[0], (ast.Is, ast.IsNot))
+                 and isinstance(t.ast.comparators[0], ast.Constant) and t.ast.comparators[0].value is None]
+
+    def none_arm(a: Node, b: Node, lab) -> bool:
+        if a in nonetests:
+            is_ = isinstance(a.ast.ops[0], ast.Is)
+            return lab[0] == ("T" if is_ else "F")
+        if a.op == "test" and isinstance(a.ast, ast.Name):
+            return lab[0] == "F"
+        if a.op == "test" and isinstance(a.ast, ast.UnaryOp) and isinstance(a.ast.op, ast.Not) and isinstance(a.ast.operand, ast.Name):
+            return lab[0] == "T"
+        return True
+    # follow only the "command is None / falsy" arms of tests: no write may be reachable that way
+    r_none = reach([gi.entry], lambda a, b, lab: (a.op != "test" or none_arm(a, b, lab)))
+    guarded = bool(nonetests) or any(t.op == "test" for t in gi.nodes)
+    leak = [w for w in writes if w in r_none] if guarded else writes
+    # (every test in _interact is about the command; with the None arm taken at each, nothing is written)
+    rep.ob(rule, "_interact writes nothing when there is no command", not leak, func=fi, construct=leak[0] if leak else "writes guarded by the None test")
+
+
+def r_path_as_given(ctx: Ctx, rule: str):
+    """PATH-AS-GIVEN: the Unix server binds, and the Unix client connects to, the socket path it was constructed with - converted to a
+    Path object and nothing else.  A path made absolute or resolved is a *different address string*: `sun_path` holds about 107 bytes,
+    so a relative name that works from any directory stops working once the working directory is deep; and the two ends may no longer
+    spell the same file."""
+    rep = ctx.rep
+    rep.rule(rule, "PATH-AS-GIVEN: UnixControlServer / UnixControlClient store their `socket_path` argument through Path() / str() / os.fspath() only "
+                   "(no resolve / absolute / expanduser / abspath / realpath), and that attribute is what is handed to start_unix_server / "
+                   "open_unix_connection / unlink")
+    n = 0
+    for cq in ("control.server.UnixControlServer", "control.client.UnixControlClient"):
+        k = ctx.prog.cls(cq)
+        init = k.methods.get("__init__")
+        if init is None or "socket_path" not in init.param_names():
+            raise AnalysisError(f"anchor: {cq}.__init__(socket_path) missing")
+        sn = init.param_names()[0]
+        stores = [x for x in ctx.an.scope(init)._own_nodes() if isinstance(x, (ast.Assign, ast.AnnAssign)) and x.value is not None and
+                  any(isinstance(t, ast.Attribute) and t.attr == "_socket_path" and isinstance(t.value, ast.Name) and t.value.id == sn
+                      for t in (x.targets if isinstance(x, ast.Assign) else [x.target]))]
+        rep.floor(rule, f"store of _socket_path in {k.name}.__init__", len(stores), 1)
+
+        def plain(e: ast.AST, depth: int = 0) -> bool:
+            e = strip_cast(ctx.vals.resolve(init, e))
+            if depth > 5:
+                return False
+            if isinstance(e, ast.Name):
+                return e.id == "socket_path" and not ctx.an.scope(init).defs.get("socket_path")
+            if isinstance(e, ast.Call) and len(e.args) == 1 and not e.keywords:
+                fn = e.func
+                nm = fn.id if isinstance(fn, ast.Name) else (fn.attr if isinstance(fn, ast.Attribute) and isinstance(fn.value, ast.Name) and fn.value.id in ("os", "pathlib") else None)
+                if nm in ("Path", "PurePath", "PosixPath", "str", "fspath"):
+                    return plain(e.args[0], depth + 1)
+            return False
+
+        for st in stores:
+            n += 1
+            ok = plain(st.value)
+            rep.ob(rule, "the socket path is stored as given", ok, func=init, construct=st,
+                   detail="" if ok else f"`{ast.unparse(st.value)[:60]}` is another address than the one the caller named (absolute / resolved paths can exceed sun_path, "
+                                        "and differ from what the other end spells)")
+        # who else writes it
+        for m in k.methods.values():
+            if m is init:
+                continue
+            msn = m.param_names()[0] if m.param_names() else None
+            for x in ast.walk(m.node):
+                if isinstance(x, ast.Attribute) and x.attr == "_socket_path" and isinstance(x.ctx, ast.Store) and isinstance(x.value, ast.Name) and x.value.id == msn:
+                    rep.ob(rule, "the socket path is set once, by the constructor", False, func=m, construct=x)
+    rep.floor(rule, "socket path stores judged", n, 2)
